@@ -1,5 +1,3 @@
 package c19
 
-func v2Protocol(h *harness)      {}
-func httpNode(h *harness)        {}
-func v2Worker(args []string) int { return 0 }
+func httpNode(h *harness) {}
